@@ -166,6 +166,13 @@ theorem refines_refSlice : Refines Rd.refSlice cellRef (fun c => .con "slice" c)
   obtain ⟨b, c, more, rfl, rfl, rfl⟩ := (cellRef_dec s v s').1 hd
   simp [Rd.refSlice, loadRef_cons]
 
+/-- `S.load_dict(n)` without a value_deserializer against ANY `HashmapE n X`: the keys, each with a raw Slice -/
+theorem dictRawK (X : Codec) (n : Nat) (s : Frag) (v : Val) (s' : Frag) :
+    ((hashmapE n X).dec s = some (v, s')) ↔
+      (Kept (hashmapE n X) s v s' ∧ Rd.loadDictRaw n s = some (viewDictRaw n v, s')) := by
+  have h : RefinesEP PT Rd.rawLeaf X (fun _ => .con "slice" .unit) := fun s v s' _ _ => ⟨s, rfl⟩
+  exact ⟨fun hd => ⟨hd, (h.dictT n) s v s' hd trivial⟩, fun hd => hd.1⟩
+
 /-! ### `Slice.load_hashmap_aug_e` : `HashmapAugE n X Y` -/
 
 theorem get_extra_value_v (e v : Val) : (Val.record [("extra", e), ("value", v)]).get "value" = v := by
